@@ -679,7 +679,9 @@ ICUTranscoder::transcodeTo( const   XMLCh* const    srcData
     if (!res)
     {
         XMLCh tmpBuf[17];
-        XMLString::binToText((unsigned int)*startSrc, tmpBuf, 16, 16, getMemoryManager());
+        // ICU has consumed the offending character: it is the one before startSrc
+        // (reading *startSrc runs past the source when it was the last one)
+        XMLString::binToText((unsigned int)(startSrc > srcPtr ? startSrc[-1] : 0), tmpBuf, 16, 16, getMemoryManager());
         ThrowXMLwithMemMgr2
         (
             TranscodingException
